@@ -19,7 +19,11 @@ EXTENDS Integers, Sequences, FiniteSets, TLC
 
 CONSTANTS Producers, RankOf, NMsgs, Budget, MaxTurns,
           Restarts,    \* number of external Restart calls (0 or 1)
-          Defects      \* {"LateReset"}: restartSubtree forces Idle AFTER the actor is live again
+          Stops,       \* number of external Shutdown calls (Stop/Kill/parent stop/passivation path) (0 or 1)
+          Pills,       \* number of PoisonPill messages sent (0 or 1)
+          Defects      \* "LateReset": restartSubtree forces Idle AFTER the actor is live again (fixed in /repo)
+                       \* "StopRace": an external Shutdown neither waits for the in-flight turn nor removes the
+                       \*             handler before PostStop (the code as it is)
 
 VARIABLES sched,       \* "Idle" | "Sched" | "Proc"
           mbox,        \* Seq([id, linked])  user mailbox in SWAP order
@@ -29,13 +33,20 @@ VARIABLES sched,       \* "Idle" | "Sched" | "Proc"
           tpc, titer, tcur,   \* turn tokens 1..MaxTurns: pc, loop iterations used, message in hand
           nturn,       \* tokens spawned so far
           rpc, rleft,  \* restarter
+          spc, kpc,    \* external stopper, PoisonPill sender
+          psStarted,   \* PostStop has started for the current incarnation
+          inPS,        \* thread currently inside PostStop ("" = none)
+          psRuns,      \* PostStop executions of the current incarnation
+          lockHeld,    \* holder of pid.stopLocker: "" | "s" | "r" | "t"
           inHandler,   \* set of turn tokens inside the message handler
           owners,      \* set of turn tokens that hold the actor (Processing)
           sent, handled, swallowed, last
 
-vars == <<sched, mbox, sys, life, ppc, pk, tpc, titer, tcur, nturn, rpc, rleft, inHandler, owners, sent, handled, swallowed, last>>
+lc == <<spc, kpc, psStarted, inPS, psRuns, lockHeld>>     \* lifecycle / stop-path variables
+vars == <<sched, mbox, sys, life, ppc, pk, tpc, titer, tcur, nturn, rpc, rleft, inHandler, owners, sent, handled, swallowed, spc, kpc, psStarted, inPS, psRuns, lockHeld, last>>
 
 Turns == 1..MaxTurns
+StopRace == "StopRace" \in Defects
 Id(p, k) == RankOf[p] * 10 + k
 
 Init == /\ sched = "Idle" /\ mbox = <<>> /\ sys = <<>> /\ life = "running"
@@ -43,6 +54,8 @@ Init == /\ sched = "Idle" /\ mbox = <<>> /\ sys = <<>> /\ life = "running"
         /\ tpc = [k \in Turns |-> "none"] /\ titer = [k \in Turns |-> 0] /\ tcur = [k \in Turns |-> 0]
         /\ nturn = 0 /\ rpc = "idle" /\ rleft = Restarts
         /\ inHandler = {} /\ owners = {} /\ sent = <<>> /\ handled = <<>> /\ swallowed = {} /\ last = "init"
+        /\ spc = (IF Stops > 0 THEN "idle" ELSE "done") /\ kpc = (IF Pills > 0 THEN "idle" ELSE "done")
+        /\ psStarted = FALSE /\ inPS = "" /\ psRuns = 0 /\ lockHeld = ""
 
 Spawn == /\ nturn < MaxTurns
          /\ nturn' = nturn + 1
@@ -58,31 +71,31 @@ PDone(p) == /\ pk' = [pk EXCEPT ![p] = @ + 1]
 \* Tell checks IsRunning first: while the actor is stopped (restart window) the call fails with ErrDead
 Call(p) == /\ ppc[p] = "idle" /\ pk[p] <= NMsgs[p] /\ last' = "Call"
            /\ IF life = "running" THEN ppc' = [ppc EXCEPT ![p] = "swap"] /\ UNCHANGED pk ELSE PDone(p)
-           /\ UNCHANGED <<sched, mbox, sys, life, tpc, titer, tcur, nturn, rpc, rleft, inHandler, owners, sent, handled, swallowed>>
+           /\ UNCHANGED <<lc, sched, mbox, sys, life, tpc, titer, tcur, nturn, rpc, rleft, inHandler, owners, sent, handled, swallowed>>
 
 Swap(p) == /\ ppc[p] = "swap"
            /\ mbox' = Append(mbox, [id |-> Id(p, pk[p]), linked |-> FALSE])
            /\ sent' = Append(sent, Id(p, pk[p]))
            /\ ppc' = [ppc EXCEPT ![p] = "link"] /\ last' = "Swap"
-           /\ UNCHANGED <<sched, sys, life, pk, tpc, titer, tcur, nturn, rpc, rleft, inHandler, owners, handled, swallowed>>
+           /\ UNCHANGED <<lc, sched, sys, life, pk, tpc, titer, tcur, nturn, rpc, rleft, inHandler, owners, handled, swallowed>>
 
 Link(p) == /\ ppc[p] = "link"
            /\ mbox' = [i \in 1..Len(mbox) |-> IF mbox[i].id = Id(p, pk[p]) THEN [mbox[i] EXCEPT !.linked = TRUE] ELSE mbox[i]]
            /\ ppc' = [ppc EXCEPT ![p] = "tsload"] /\ last' = "Link"
-           /\ UNCHANGED <<sched, sys, life, pk, tpc, titer, tcur, nturn, rpc, rleft, inHandler, owners, sent, handled, swallowed>>
+           /\ UNCHANGED <<lc, sched, sys, life, pk, tpc, titer, tcur, nturn, rpc, rleft, inHandler, owners, sent, handled, swallowed>>
 
 PTSLoad(p) == /\ ppc[p] = "tsload" /\ last' = "TSLoad"
               /\ IF sched = "Idle" THEN ppc' = [ppc EXCEPT ![p] = "tscas"] /\ UNCHANGED pk ELSE PDone(p)
-              /\ UNCHANGED <<sched, mbox, sys, life, tpc, titer, tcur, nturn, rpc, rleft, inHandler, owners, sent, handled, swallowed>>
+              /\ UNCHANGED <<lc, sched, mbox, sys, life, tpc, titer, tcur, nturn, rpc, rleft, inHandler, owners, sent, handled, swallowed>>
 
 PTSCas(p) == /\ ppc[p] = "tscas" /\ last' = "TSCas"
              /\ IF sched = "Idle" THEN sched' = "Sched" /\ ppc' = [ppc EXCEPT ![p] = "push"] /\ UNCHANGED pk
                                   ELSE UNCHANGED sched /\ PDone(p)
-             /\ UNCHANGED <<mbox, sys, life, tpc, titer, tcur, nturn, rpc, rleft, inHandler, owners, sent, handled, swallowed>>
+             /\ UNCHANGED <<lc, mbox, sys, life, tpc, titer, tcur, nturn, rpc, rleft, inHandler, owners, sent, handled, swallowed>>
 
 Push(p) == /\ ppc[p] = "push" /\ last' = "Push"
            /\ Spawn /\ PDone(p)
-           /\ UNCHANGED <<sched, mbox, sys, life, titer, tcur, rpc, rleft, inHandler, owners, sent, handled, swallowed>>
+           /\ UNCHANGED <<lc, sched, mbox, sys, life, titer, tcur, rpc, rleft, inHandler, owners, sent, handled, swallowed>>
 
 \* ---------------------------------------------------------------- turn tokens (dispatcher workers)
 TGo(k, l) == tpc' = [tpc EXCEPT ![k] = l]
@@ -94,123 +107,184 @@ Take(k) == /\ tpc[k] \in {"take", "retake"} /\ last' = "Take"
               THEN /\ sched' = "Proc" /\ owners' = owners \cup {k}
                    /\ IF tpc[k] = "take" THEN TGo(k, "deqsys") /\ UNCHANGED titer
                                          ELSE TGo(k, NextIter(k)) /\ titer' = [titer EXCEPT ![k] = @ + 1]
-              ELSE /\ TGo(k, "end") /\ UNCHANGED <<sched, owners, titer>>
-           /\ UNCHANGED <<mbox, sys, life, ppc, pk, tcur, nturn, rpc, rleft, inHandler, sent, handled, swallowed>>
+              ELSE /\ TGo(k, "end") /\ UNCHANGED <<lc, sched, owners, titer>>
+           /\ UNCHANGED <<lc, mbox, sys, life, ppc, pk, tcur, nturn, rpc, rleft, inHandler, sent, handled, swallowed>>
 
 \* system messages are handled inside the runtime (PostStart is delivered to the handler too, but
 \* the test actor ignores it); modelled as consumed in one step
 DeqSys(k) == /\ tpc[k] = "deqsys" /\ last' = "DeqSys"
-             /\ IF sys # <<>>
-                THEN /\ sys' = Tail(sys) /\ TGo(k, NextIter(k)) /\ titer' = [titer EXCEPT ![k] = @ + 1]
-                ELSE /\ TGo(k, "dequser") /\ UNCHANGED <<sys, titer>>
-             /\ UNCHANGED <<sched, mbox, life, ppc, pk, tcur, nturn, rpc, rleft, inHandler, owners, sent, handled, swallowed>>
+             /\ IF sys # <<>> /\ sys[1].linked
+                THEN sys' = Tail(sys) /\ TGo(k, "tlock")        \* PoisonPill: pid.Shutdown on the worker's own goroutine
+                ELSE TGo(k, "dequser") /\ UNCHANGED sys
+             /\ UNCHANGED <<lc, sched, mbox, life, ppc, pk, titer, tcur, nturn, rpc, rleft, inHandler, owners, sent, handled, swallowed>>
 
 DeqUser(k) == /\ tpc[k] = "dequser" /\ last' = "DeqUser"
               /\ IF mbox # <<>> /\ mbox[1].linked
                  THEN /\ mbox' = Tail(mbox)
-                      /\ IF life # "stopped" /\ mbox[1].id # 0
-                         THEN /\ tcur' = [tcur EXCEPT ![k] = mbox[1].id] /\ TGo(k, "enter") /\ UNCHANGED <<swallowed, titer>>
+                      /\ IF (IF StopRace THEN life # "stopped" ELSE life = "running") /\ mbox[1].id # 0
+                         THEN /\ tcur' = [tcur EXCEPT ![k] = mbox[1].id] /\ TGo(k, "enter") /\ UNCHANGED <<lc, swallowed, titer>>
                          ELSE \* behaviour stack is empty while stopped: the message is dropped without a handler call
                               \* (PostStart, id 0, reaches the handler but the test actor ignores it: no gate inside)
                               /\ swallowed' = swallowed \cup ({mbox[1].id} \ {0}) /\ TGo(k, NextIter(k))
                               /\ titer' = [titer EXCEPT ![k] = @ + 1] /\ UNCHANGED tcur
-                 ELSE /\ TGo(k, "finreset") /\ UNCHANGED <<mbox, tcur, swallowed, titer>>
-              /\ UNCHANGED <<sched, sys, life, ppc, pk, nturn, rpc, rleft, inHandler, owners, sent, handled>>
+                 ELSE /\ TGo(k, "finreset") /\ UNCHANGED <<lc, mbox, tcur, swallowed, titer>>
+              /\ UNCHANGED <<lc, sched, sys, life, ppc, pk, nturn, rpc, rleft, inHandler, owners, sent, handled>>
 
 Enter(k) == /\ tpc[k] = "enter" /\ last' = "Enter"
+            /\ (StopRace \/ inPS = "")
             /\ inHandler' = inHandler \cup {k} /\ TGo(k, "exit")
-            /\ UNCHANGED <<sched, mbox, sys, life, ppc, pk, titer, tcur, nturn, rpc, rleft, owners, sent, handled, swallowed>>
+            /\ UNCHANGED <<lc, sched, mbox, sys, life, ppc, pk, titer, tcur, nturn, rpc, rleft, owners, sent, handled, swallowed>>
 
 Exit(k) == /\ tpc[k] = "exit" /\ last' = "Exit"
            /\ inHandler' = inHandler \ {k}
            /\ handled' = Append(handled, tcur[k])
            /\ titer' = [titer EXCEPT ![k] = @ + 1]
            /\ TGo(k, NextIter(k))
-           /\ UNCHANGED <<sched, mbox, sys, life, ppc, pk, tcur, nturn, rpc, rleft, owners, sent, swallowed>>
+           /\ UNCHANGED <<lc, sched, mbox, sys, life, ppc, pk, tcur, nturn, rpc, rleft, owners, sent, swallowed>>
 
 FinReset(k) == /\ tpc[k] = "finreset" /\ last' = "FinReset"
                /\ sched' = "Idle" /\ owners' = owners \ {k} /\ TGo(k, "finemptyu")
-               /\ UNCHANGED <<mbox, sys, life, ppc, pk, titer, tcur, nturn, rpc, rleft, inHandler, sent, handled, swallowed>>
+               /\ UNCHANGED <<lc, mbox, sys, life, ppc, pk, titer, tcur, nturn, rpc, rleft, inHandler, sent, handled, swallowed>>
 
 FinEmptyU(k) == /\ tpc[k] = "finemptyu" /\ last' = "FinEmptyU"
                 /\ TGo(k, IF mbox # <<>> /\ mbox[1].linked THEN "tsload" ELSE "finemptys")
-                /\ UNCHANGED <<sched, mbox, sys, life, ppc, pk, titer, tcur, nturn, rpc, rleft, inHandler, owners, sent, handled, swallowed>>
+                /\ UNCHANGED <<lc, sched, mbox, sys, life, ppc, pk, titer, tcur, nturn, rpc, rleft, inHandler, owners, sent, handled, swallowed>>
 
 FinEmptyS(k) == /\ tpc[k] = "finemptys" /\ last' = "FinEmptyS"
-                /\ TGo(k, IF sys # <<>> THEN "tsload" ELSE "end")
-                /\ UNCHANGED <<sched, mbox, sys, life, ppc, pk, titer, tcur, nturn, rpc, rleft, inHandler, owners, sent, handled, swallowed>>
+                /\ TGo(k, IF sys # <<>> /\ sys[1].linked THEN "tsload" ELSE "end")
+                /\ UNCHANGED <<lc, sched, mbox, sys, life, ppc, pk, titer, tcur, nturn, rpc, rleft, inHandler, owners, sent, handled, swallowed>>
 
 TTSLoad(k) == /\ tpc[k] = "tsload" /\ last' = "TSLoad"
               /\ TGo(k, IF sched = "Idle" THEN "tscas" ELSE "end")
-              /\ UNCHANGED <<sched, mbox, sys, life, ppc, pk, titer, tcur, nturn, rpc, rleft, inHandler, owners, sent, handled, swallowed>>
+              /\ UNCHANGED <<lc, sched, mbox, sys, life, ppc, pk, titer, tcur, nturn, rpc, rleft, inHandler, owners, sent, handled, swallowed>>
 
 TTSCas(k) == /\ tpc[k] = "tscas" /\ last' = "TSCas"
              /\ IF sched = "Idle" THEN sched' = "Sched" /\ TGo(k, "retake") ELSE UNCHANGED sched /\ TGo(k, "end")
-             /\ UNCHANGED <<mbox, sys, life, ppc, pk, titer, tcur, nturn, rpc, rleft, inHandler, owners, sent, handled, swallowed>>
+             /\ UNCHANGED <<lc, mbox, sys, life, ppc, pk, titer, tcur, nturn, rpc, rleft, inHandler, owners, sent, handled, swallowed>>
 
 Yield(k) == /\ tpc[k] = "yield" /\ last' = "Yield"
             /\ sched' = "Sched" /\ owners' = owners \ {k} /\ TGo(k, "resched")
-            /\ UNCHANGED <<mbox, sys, life, ppc, pk, titer, tcur, nturn, rpc, rleft, inHandler, sent, handled, swallowed>>
+            /\ UNCHANGED <<lc, mbox, sys, life, ppc, pk, titer, tcur, nturn, rpc, rleft, inHandler, sent, handled, swallowed>>
 
 Resched(k) == /\ tpc[k] = "resched" /\ last' = "Resched"
               /\ SpawnWith([tpc EXCEPT ![k] = "end"])
-              /\ UNCHANGED <<sched, mbox, sys, life, ppc, pk, titer, tcur, rpc, rleft, inHandler, owners, sent, handled, swallowed>>
+              /\ UNCHANGED <<lc, sched, mbox, sys, life, ppc, pk, titer, tcur, rpc, rleft, inHandler, owners, sent, handled, swallowed>>
 
 \* ---------------------------------------------------------------- restarter (PID.Restart from outside)
 RGo(l) == rpc' = l
 \* Restart -> Shutdown: stopLocker, state := stopping (Tell now fails), ... up to the PostStop call
 RCall == /\ rpc = "idle" /\ rleft > 0 /\ life = "running"
-         /\ RGo("stop") /\ rleft' = rleft - 1 /\ last' = "RCall" /\ life' = "stopping"
-         /\ UNCHANGED <<sched, mbox, sys, ppc, pk, tpc, titer, tcur, nturn, inHandler, owners, sent, handled, swallowed>>
+         /\ RGo("lock") /\ rleft' = rleft - 1 /\ last' = "RCall"
+         /\ UNCHANGED <<lc, sched, mbox, sys, life, ppc, pk, tpc, titer, tcur, nturn, inHandler, owners, sent, handled, swallowed>>
 
-\* PostStop on the caller's goroutine, then running := false and the behaviour stack is cleared
-RStop == /\ rpc = "stop" /\ life' = "stopped" /\ RGo("wait") /\ last' = "RStop"
-         /\ UNCHANGED <<sched, mbox, sys, ppc, pk, tpc, titer, tcur, nturn, rleft, inHandler, owners, sent, handled, swallowed>>
+\* PostStop runs on the CALLER's goroutine (gates ps.enter / ps.exit of the test actor), then
+\* running := false and pid.reset() clears the behaviour stack
+\* stopLocker.Lock(); if still running: state := stopping (Tell now fails) ... up to the PostStop call
+RLock == /\ rpc = "lock" /\ lockHeld = "" /\ last' = "RLock"
+         /\ IF life = "running" THEN lockHeld' = "r" /\ life' = "stopping" /\ RGo("stop")
+                             ELSE UNCHANGED <<lockHeld, life>> /\ RGo("wait")
+         /\ UNCHANGED <<sched, mbox, sys, ppc, pk, tpc, titer, tcur, nturn, rleft, inHandler, owners, sent, handled, swallowed, spc, kpc, psStarted, inPS, psRuns>>
+RPsEnter == /\ rpc = "stop" /\ RGo("psexit") /\ last' = "RPsEnter"
+            /\ (StopRace \/ inHandler = {})
+            /\ psStarted' = TRUE /\ inPS' = "r" /\ psRuns' = psRuns + 1
+            /\ UNCHANGED <<sched, mbox, sys, life, ppc, pk, tpc, titer, tcur, nturn, rleft, inHandler, owners, sent, handled, swallowed, spc, kpc, lockHeld>>
+RPsExit == /\ rpc = "psexit" /\ RGo("wait") /\ last' = "RPsExit"
+           /\ life' = "stopped" /\ inPS' = "" /\ lockHeld' = ""
+           /\ UNCHANGED <<sched, mbox, sys, ppc, pk, tpc, titer, tcur, nturn, rleft, inHandler, owners, sent, handled, swallowed, spc, kpc, psStarted, psRuns>>
 
 \* for schedState.Load() == Processing { Gosched }
 RWait == /\ rpc = "wait" /\ sched # "Proc" /\ RGo("init") /\ last' = "RWait"
-         /\ UNCHANGED <<sched, mbox, sys, life, ppc, pk, tpc, titer, tcur, nturn, rleft, inHandler, owners, sent, handled, swallowed>>
+         /\ UNCHANGED <<lc, sched, mbox, sys, life, ppc, pk, tpc, titer, tcur, nturn, rleft, inHandler, owners, sent, handled, swallowed>>
 
 \* resetBehavior + init: PreStart ran, the actor is running and tell-able again
 RInit == /\ rpc = "init" /\ last' = "RInit"
-         /\ life' = "running"
+         /\ life' = "running" /\ psStarted' = FALSE /\ psRuns' = 0      \* a new incarnation
          /\ RGo(IF "LateReset" \in Defects THEN "reset" ELSE "poststart")
-         /\ UNCHANGED <<sched, mbox, sys, ppc, pk, tpc, titer, tcur, nturn, rleft, inHandler, owners, sent, handled, swallowed>>
+         /\ UNCHANGED <<spc, kpc, inPS, lockHeld, sched, mbox, sys, ppc, pk, tpc, titer, tcur, nturn, rleft, inHandler, owners, sent, handled, swallowed>>
 
 \* pid.schedState.reset() after the actor (and its subtree) is live again
 RReset == /\ rpc = "reset" /\ last' = "RReset"
           /\ sched' = "Idle" /\ RGo("poststart")
-          /\ UNCHANGED <<mbox, sys, life, ppc, pk, tpc, titer, tcur, nturn, rleft, inHandler, owners, sent, handled, swallowed>>
+          /\ UNCHANGED <<lc, mbox, sys, life, ppc, pk, tpc, titer, tcur, nturn, rleft, inHandler, owners, sent, handled, swallowed>>
 
 \* fireSystemMessage(PostStart): PostStart is NOT a control message, it travels through the USER mailbox
 \* (id 0; the test actor's handler ignores it), then TrySchedule / push
 RPostStart == /\ rpc = "poststart" /\ last' = "RPostStart"
               /\ mbox' = Append(mbox, [id |-> 0, linked |-> FALSE]) /\ RGo("pslink")
-              /\ UNCHANGED <<sched, sys, life, ppc, pk, tpc, titer, tcur, nturn, rleft, inHandler, owners, sent, handled, swallowed>>
+              /\ UNCHANGED <<lc, sched, sys, life, ppc, pk, tpc, titer, tcur, nturn, rleft, inHandler, owners, sent, handled, swallowed>>
 RPSLink == /\ rpc = "pslink" /\ last' = "RPSLink"
            /\ mbox' = [i \in 1..Len(mbox) |-> IF mbox[i].id = 0 THEN [mbox[i] EXCEPT !.linked = TRUE] ELSE mbox[i]]
            /\ RGo("tsload")
-           /\ UNCHANGED <<sched, sys, life, ppc, pk, tpc, titer, tcur, nturn, rleft, inHandler, owners, sent, handled, swallowed>>
+           /\ UNCHANGED <<lc, sched, sys, life, ppc, pk, tpc, titer, tcur, nturn, rleft, inHandler, owners, sent, handled, swallowed>>
 RTSLoad == /\ rpc = "tsload" /\ last' = "TSLoad"
            /\ RGo(IF sched = "Idle" THEN "tscas" ELSE "idle")
-           /\ UNCHANGED <<sched, mbox, sys, life, ppc, pk, tpc, titer, tcur, nturn, rleft, inHandler, owners, sent, handled, swallowed>>
+           /\ UNCHANGED <<lc, sched, mbox, sys, life, ppc, pk, tpc, titer, tcur, nturn, rleft, inHandler, owners, sent, handled, swallowed>>
 RTSCas == /\ rpc = "tscas" /\ last' = "TSCas"
           /\ IF sched = "Idle" THEN sched' = "Sched" /\ RGo("push") ELSE UNCHANGED sched /\ RGo("idle")
-          /\ UNCHANGED <<mbox, sys, life, ppc, pk, tpc, titer, tcur, nturn, rleft, inHandler, owners, sent, handled, swallowed>>
+          /\ UNCHANGED <<lc, mbox, sys, life, ppc, pk, tpc, titer, tcur, nturn, rleft, inHandler, owners, sent, handled, swallowed>>
 RPush == /\ rpc = "push" /\ last' = "Push"
          /\ Spawn /\ RGo("idle")
-         /\ UNCHANGED <<sched, mbox, sys, life, ppc, pk, titer, tcur, rleft, inHandler, owners, sent, handled, swallowed>>
+         /\ UNCHANGED <<lc, sched, mbox, sys, life, ppc, pk, titer, tcur, rleft, inHandler, owners, sent, handled, swallowed>>
+
+\* ---------------------------------------------------------------- external Shutdown (Stop / Kill / parent / passivation)
+\* Shutdown: stopLocker, state := stopping, free watchees/children ... up to the PostStop call
+SCall == /\ spc = "idle" /\ last' = "SCall" /\ spc' = "lock"
+         /\ UNCHANGED <<sched, mbox, sys, life, ppc, pk, tpc, titer, tcur, nturn, rpc, rleft, inHandler, owners, sent, handled, swallowed, kpc, psStarted, inPS, psRuns, lockHeld>>
+SLock == /\ spc = "lock" /\ lockHeld = "" /\ last' = "SLock"
+         /\ IF life = "running" THEN lockHeld' = "s" /\ life' = "stopping" /\ spc' = "psenter"
+                             ELSE UNCHANGED <<lockHeld, life>> /\ spc' = "done"
+         /\ UNCHANGED <<sched, mbox, sys, ppc, pk, tpc, titer, tcur, nturn, rpc, rleft, inHandler, owners, sent, handled, swallowed, kpc, psStarted, inPS, psRuns>>
+\* the repaired design would wait here until no worker is inside the handler
+SPsEnter == /\ spc = "psenter" /\ last' = "SPsEnter"
+            /\ (StopRace \/ inHandler = {})
+            /\ spc' = "psexit" /\ psStarted' = TRUE /\ inPS' = "s" /\ psRuns' = psRuns + 1
+            /\ UNCHANGED <<sched, mbox, sys, life, ppc, pk, tpc, titer, tcur, nturn, rpc, rleft, inHandler, owners, sent, handled, swallowed, kpc, lockHeld>>
+SPsExit == /\ spc = "psexit" /\ last' = "SPsExit"
+           /\ spc' = "done" /\ life' = "stopped" /\ inPS' = "" /\ lockHeld' = ""
+           /\ UNCHANGED <<sched, mbox, sys, ppc, pk, tpc, titer, tcur, nturn, rpc, rleft, inHandler, owners, sent, handled, swallowed, kpc, psStarted, psRuns>>
+
+\* ---------------------------------------------------------------- PoisonPill: a control message through the SYSTEM mailbox
+KCall == /\ kpc = "idle" /\ last' = "KCall"
+         /\ kpc' = (IF life = "running" THEN "swap" ELSE "done")
+         /\ UNCHANGED <<sched, mbox, sys, life, ppc, pk, tpc, titer, tcur, nturn, rpc, rleft, inHandler, owners, sent, handled, swallowed, spc, psStarted, inPS, psRuns, lockHeld>>
+KSwap == /\ kpc = "swap" /\ last' = "KSwap" /\ kpc' = "link"
+         /\ sys' = Append(sys, [m |-> "pill", linked |-> FALSE])
+         /\ UNCHANGED <<sched, mbox, life, ppc, pk, tpc, titer, tcur, nturn, rpc, rleft, inHandler, owners, sent, handled, swallowed, spc, psStarted, inPS, psRuns, lockHeld>>
+KLink == /\ kpc = "link" /\ last' = "KLink" /\ kpc' = "tsload"
+         /\ sys' = [i \in 1..Len(sys) |-> [sys[i] EXCEPT !.linked = TRUE]]
+         /\ UNCHANGED <<sched, mbox, life, ppc, pk, tpc, titer, tcur, nturn, rpc, rleft, inHandler, owners, sent, handled, swallowed, spc, psStarted, inPS, psRuns, lockHeld>>
+KTSLoad == /\ kpc = "tsload" /\ last' = "KTSLoad" /\ kpc' = (IF sched = "Idle" THEN "tscas" ELSE "done")
+           /\ UNCHANGED <<sched, mbox, sys, life, ppc, pk, tpc, titer, tcur, nturn, rpc, rleft, inHandler, owners, sent, handled, swallowed, spc, psStarted, inPS, psRuns, lockHeld>>
+KTSCas == /\ kpc = "tscas" /\ last' = "KTSCas"
+          /\ IF sched = "Idle" THEN sched' = "Sched" /\ kpc' = "push" ELSE UNCHANGED sched /\ kpc' = "done"
+          /\ UNCHANGED <<mbox, sys, life, ppc, pk, tpc, titer, tcur, nturn, rpc, rleft, inHandler, owners, sent, handled, swallowed, spc, psStarted, inPS, psRuns, lockHeld>>
+KPush == /\ kpc = "push" /\ last' = "KPush" /\ kpc' = "done" /\ Spawn
+         /\ UNCHANGED <<sched, mbox, sys, life, ppc, pk, titer, tcur, rpc, rleft, inHandler, owners, sent, handled, swallowed, spc, psStarted, inPS, psRuns, lockHeld>>
+
+\* the turn that dequeued the pill runs Shutdown itself: PostStop on the worker, inside the turn
+TLock(k) == /\ tpc[k] = "tlock" /\ lockHeld = "" /\ last' = "TLock"
+            /\ IF life = "running" THEN lockHeld' = "t" /\ life' = "stopping" /\ TGo(k, "tpsenter") /\ UNCHANGED titer
+                                ELSE UNCHANGED <<lockHeld, life>> /\ TGo(k, NextIter(k)) /\ titer' = [titer EXCEPT ![k] = @ + 1]
+            /\ UNCHANGED <<sched, mbox, sys, ppc, pk, tcur, nturn, rpc, rleft, inHandler, owners, sent, handled, swallowed, spc, kpc, psStarted, inPS, psRuns>>
+TPsEnter(k) == /\ tpc[k] = "tpsenter" /\ last' = "TPsEnter" /\ TGo(k, "tpsexit")
+               /\ psStarted' = TRUE /\ inPS' = "t" /\ psRuns' = psRuns + 1
+               /\ UNCHANGED <<sched, mbox, sys, life, ppc, pk, titer, tcur, nturn, rpc, rleft, inHandler, owners, sent, handled, swallowed, spc, kpc, lockHeld>>
+TPsExit(k) == /\ tpc[k] = "tpsexit" /\ last' = "TPsExit"
+              /\ life' = "stopped" /\ inPS' = "" /\ lockHeld' = ""
+              /\ TGo(k, NextIter(k)) /\ titer' = [titer EXCEPT ![k] = @ + 1]
+              /\ UNCHANGED <<sched, mbox, sys, ppc, pk, tcur, nturn, rpc, rleft, inHandler, owners, sent, handled, swallowed, spc, kpc, psStarted, psRuns>>
 
 Next == \/ \E p \in Producers : Call(p) \/ Swap(p) \/ Link(p) \/ PTSLoad(p) \/ PTSCas(p) \/ Push(p)
         \/ \E k \in Turns : Take(k) \/ DeqSys(k) \/ DeqUser(k) \/ Enter(k) \/ Exit(k) \/ FinReset(k) \/ FinEmptyU(k)
-                            \/ FinEmptyS(k) \/ TTSLoad(k) \/ TTSCas(k) \/ Yield(k) \/ Resched(k)
-        \/ RCall \/ RStop \/ RWait \/ RInit \/ RReset \/ RPostStart \/ RPSLink \/ RTSLoad \/ RTSCas \/ RPush
+                            \/ FinEmptyS(k) \/ TTSLoad(k) \/ TTSCas(k) \/ Yield(k) \/ Resched(k) \/ TLock(k) \/ TPsEnter(k) \/ TPsExit(k)
+        \/ SCall \/ SLock \/ SPsEnter \/ SPsExit \/ KCall \/ KSwap \/ KLink \/ KTSLoad \/ KTSCas \/ KPush
+        \/ RCall \/ RLock \/ RPsEnter \/ RPsExit \/ RWait \/ RInit \/ RReset \/ RPostStart \/ RPSLink \/ RTSLoad \/ RTSCas \/ RPush
 
 Spec == Init /\ [][Next]_vars
 Fairness == /\ \A p \in Producers : WF_vars(Call(p) \/ Swap(p) \/ Link(p) \/ PTSLoad(p) \/ PTSCas(p) \/ Push(p))
             /\ \A k \in Turns : WF_vars(Take(k) \/ DeqSys(k) \/ DeqUser(k) \/ Enter(k) \/ Exit(k) \/ FinReset(k) \/ FinEmptyU(k)
                                          \/ FinEmptyS(k) \/ TTSLoad(k) \/ TTSCas(k) \/ Yield(k) \/ Resched(k))
-            /\ WF_vars(RStop \/ RWait \/ RInit \/ RReset \/ RPostStart \/ RPSLink \/ RTSLoad \/ RTSCas \/ RPush)
+            /\ WF_vars(RLock \/ RPsEnter \/ RPsExit \/ RWait \/ RInit \/ RReset \/ RPostStart \/ RPSLink \/ RTSLoad \/ RTSCas \/ RPush)
 FairSpec == Spec /\ Fairness
 
 \* ---------------------------------------------------------------- properties
@@ -219,6 +293,10 @@ Ids(s) == {s[i] : i \in 1..Len(s)}
 SingleHandler == Cardinality(inHandler) <= 1
 SingleOwner == Cardinality(owners) <= 1
 OwnerIsProcessing == owners # {} => sched = "Proc"     \* holds only without LateReset
+\* C06
+PostStopAtMostOnce == psRuns <= 1
+NoReceiveDuringPostStop == ~(inPS \in {"s", "r"} /\ inHandler # {})       \* PostStop on one goroutine, Receive on another
+NoReceiveAfterPostStop == [][ (\E k \in Turns : tpc[k] = "enter" /\ tpc'[k] = "exit") => ~psStarted ]_vars
 \* C02 (safety part)
 NoDuplicate == \A i, j \in 1..Len(handled) : i # j => handled[i] # handled[j]
 HandledWereSent == Ids(handled) \subseteq Ids(sent)
